@@ -9,6 +9,7 @@ mod stack;
 mod zcq;
 mod avg;
 mod arc;
+mod logq;
 
 use std::io::{BufRead, Write};
 
@@ -34,6 +35,7 @@ fn main() {
             "zcq" => zcq::run(&case),
             "avg" => avg::run(&case),
             "arc" => arc::run(&case),
+            "log" => logq::run(&case),
             other  => panic!("unknown case kind '{other}'"),
         };
         let text: Vec<String> = trace.iter().map(|v| v.to_string()).collect();
